@@ -590,11 +590,28 @@ func c12GenGsfa(fixdir string) []c12kit.Case {
 				muts = append(muts, c12kit.Mut{Label: fmt.Sprintf("gsfa/linked-log/record%d.next->%s", i, tgt.name), Class: "record.next|" + tgt.name, Data: d})
 			}
 		}
-		// the whole log replaced by ONE record without entries that points to itself
-		{
-			emptyZ := []byte{0x28, 0xb5, 0x2f, 0xfd, 0x20, 0x00, 0x01, 0x00, 0x00} // zstd frame of zero bytes
-			rec := c12LLRecord(emptyZ, 0, uint32(len(emptyZ)+10))
-			muts = append(muts, c12kit.Mut{Label: "gsfa/linked-log/empty-record-pointing-to-itself", Class: "record.next|empty-self-cycle", Data: rec})
+		// every record emptied (a zstd frame of zero bytes, padded to the old size with a skippable frame)
+		// and pointing to itself: a reader that follows `next` without progress never ends
+		for i := range offs {
+			_, n := binary.Uvarint(ll[offs[i]:])
+			zlen := sizes[i] - n - 9
+			if zlen < 17 {
+				continue
+			}
+			z := []byte{0x28, 0xb5, 0x2f, 0xfd, 0x20, 0x00, 0x01, 0x00, 0x00} // zstd frame of zero bytes
+			z = append(z, 0x50, 0x2a, 0x4d, 0x18)
+			z = binary.LittleEndian.AppendUint32(z, uint32(zlen-17))
+			z = append(z, make([]byte, zlen-17)...)
+			d := append([]byte(nil), ll...)
+			copy(d[offs[i]+n:], z)
+			e := offs[i] + sizes[i]
+			for k := 0; k < 6; k++ {
+				d[e-9+k] = byte(uint64(offs[i]) >> (8 * uint(k)))
+			}
+			for k := 0; k < 3; k++ {
+				d[e-3+k] = byte(uint32(sizes[i]) >> (8 * uint(k)))
+			}
+			muts = append(muts, c12kit.Mut{Label: fmt.Sprintf("gsfa/linked-log/record%d.emptied-and-next->itself", i), Class: "record.next|empty-self-cycle", Data: d})
 		}
 		out = append(out, c12Cases("gsfa", muts, map[string]string{"file": "linked-log"})...)
 	}
@@ -620,8 +637,8 @@ func c12GenTxMeta(fixdir string) []c12kit.Case {
 		muts = append(muts, c12kit.Truncations(s.Name, s.Data, nil, rng, ev.Pick(20, 300))...)
 		muts = append(muts, c12kit.BitFlips(s.Name, s.Data, rng, ev.Pick(150, 6000))...)
 		if strings.Contains(s.Name, "bincode") {
-			muts = append(muts, c12kit.SlidingU64(s.Name, s.Data, 1)...)
-			muts = append(muts, c12kit.SlidingU32(s.Name, s.Data, 1)...)
+			muts = append(muts, c12kit.SlidingU64(s.Name, s.Data, ev.Pick(3, 1))...)
+			muts = append(muts, c12kit.SlidingU32(s.Name, s.Data, ev.Pick(3, 1))...)
 		} else {
 			muts = append(muts, c12kit.SlidingU64(s.Name, s.Data, ev.Pick(7, 1))...)
 		}
